@@ -13,7 +13,7 @@ def plan(tier):
     specs = [("jws_header_value", [(k,) for k in KINDS]), ("jws_member", [(k,) for k in KINDS]),
              ("jws_crit_pairs", [(k,) for k in KINDS]), ("jws_unprotected_member", [(k,) for k in KINDS]),
              ("jwt_payload", [(k,) for k in KINDS]), ("jws_keyset_kid", [(k,) for k in KINDS]),
-             ("jwe_header_value", [(k,) for k in KINDS]), ("jwe_member_dir", [(k,) for k in KINDS]),
+             ("jwe_header_value", [(k,) for k in KINDS]), ("jwe_keyset_kid", [(k,) for k in KINDS]), ("jwe_member_dir", [(k,) for k in KINDS]),
              ("jwe_member_kw", [(k,) for k in KINDS]),
              ("jwe_member_gcmkw", [(k,) for k in KINDS if k != 3] + [(3, m) for m in range(9, 13)]),
              ("jwe_member_ecdh", [(k,) for k in KINDS if k != 3] + [(3, m) for m in range(3, 8)]),
